@@ -25,7 +25,7 @@ def run(ck: Check) -> None:
     batch = signable_batch(ck, n)
     cases = []
     for case, want, c in batch:
-        case.enc = "ascii" if rng.random() < 0.35 else "utf-8"
+        case.enc = rng.choice(["ascii", "ascii", "utf-8", "utf-8", "utf-8", "utf-8+Werror", "ascii+Werror"])
         cases.append(case)
     res = ck.run_cases(cases, "corr:verify_signable/outcome-class")
     for (case, want, c), r in zip(batch, res):
